@@ -14,6 +14,7 @@ S  direct oracle, no model: what the real parser / repository returns must equal
 import json
 import math
 import os
+import re
 import shutil
 import sys
 import tempfile
@@ -103,6 +104,29 @@ def parse_model_struct(s, tags):
             val = body.split(',') if body else []
         out[name] = (tags[name], val)
     return out
+
+
+_FIELD = re.compile(r"\b(ne|te|rates|rate|sen|st|eref|nref|tref|sref|eb|ti|ni|qeb|qti|qni|qz|qb|ebref|tiref|niref|zref|bref|qref|wl|e|n|t|z|b): ")
+_EXC = re.compile(r"raised (\w+)")
+
+
+def sigcat(msg):
+    """stable category of a difference message: the table field it concerns, or what kind of structural difference —
+    never indices, values or randomly chosen keys"""
+    msg = msg or ''
+    if 'keys' in msg or 'transitions ' in msg:
+        return 'keys'
+    m = _EXC.search(msg)
+    if m:
+        return 'raised-' + m.group(1)
+    m = _FIELD.search(msg)
+    if m:
+        return 'shape-' + m.group(1) if 'shape' in msg else m.group(1)
+    if 'absent' in msg:
+        return 'absent-key-readable'
+    if 'unshifted' in msg:
+        return 'unshifted-charge-readable'
+    return 'other'
 
 
 def de(x):
@@ -207,7 +231,7 @@ def gen_2x(ctx, rng):
     struct = {'e': (t['e'], eb), 'n': (t['n'], dt), 't': (t['t'], tt), 'sen': (t['sen'], sv), 'st': (t['st'], svt),
               'eref': (t['eref'], hdr['eref']), 'nref': (t['nref'], hdr['dref']), 'tref': (t['tref'], hdr['tref']),
               'sref': (t['sref'], hdr['svref'])}
-    return dict(fmt='2x', kind=kind, line=line, struct=struct, sizes=(neb, ndt, ntt), beam=beam, target=target, zt=zt,
+    return dict(fmt='2x', kind=kind, line=line, struct=struct, sizes=(neb, ndt, ntt), counts=(neb, ndt, ntt), beam=beam, target=target, zt=zt,
                 meta=rng.choice([1, 2, 3]), transition=rng.choice([(3, 2), (4, 2), (2, 1)]),
                 desc=dict(format=kind, neb=neb, ndt=ndt, ntt=ntt, target=target.symbol, charge=zt))
 
@@ -230,17 +254,23 @@ def run_2x(ctx, w, c, text, model, extra=None):
         got = r[beam][target][zt][c['transition']] if st == 'ok' else None
     res = dict(parse_status=st)
     if st != 'ok':
-        res['oracle'] = (False, sig + ':parse-raised', 'parse raised %s: %s' % (st, r))
+        res['oracle'] = (False, sig + ':parse:raised-' + st, 'parse raised %s: %s' % (st, r))
         res['impl_vs_model'] = 'impl raised %s, model %s' % (st, model[:40])
         return res
     d = cmp_struct(got, c['struct'])
-    res['oracle'] = (d is None, sig + ':parse:' + (d or '').split(':')[0], 'parse_%s: %s' % (kind, d))
+    res['oracle'] = (d is None, sig + ':parse:' + sigcat(d), 'parse_%s: %s' % (kind, d))
     if model.startswith('ok '):
         ms = parse_model_struct(model[3:], TAGS2X[kind])
         res['impl_vs_model'] = cmp_struct(got, ms)
         res['model_vs_tables'] = None if ms == c['struct'] else 'model parse differs from the generated tables'
     else:
         res['impl_vs_model'] = 'model says %s, implementation parsed the file' % model
+    # observation only (not judged, see notes/C08.md): the ZT= / SPEC= header of ADF21/22 is decoded but never compared
+    # with the target species the caller names
+    if kind == 'adf21' and c['zt'] != 2:
+        from cherab.core.atomic import helium
+        sto, _ = call(P.parse_adf21, beam, helium, 2, path)
+        ctx.count('observation:adf21-file-for-%s-accepted-as-He2+' % ('other-species' if sto == 'ok' else 'REJECTED'))
     # ---- install + read back
     if kind == 'adf21':
         st2, e = quiet(I.install_adf21, beam, target, zt, rel, repository_path=w.repo, adas_path=w.adas)
@@ -252,10 +282,10 @@ def run_2x(ctx, w, c, text, model, extra=None):
         st2, e = quiet(I.install_adf22bme, beam, target, zt, c['transition'], rel, repository_path=w.repo, adas_path=w.adas)
         st3, back = call(R.get_beam_emission_rate, beam, target, zt, c['transition'], w.repo)
     if st2 != 'ok' or st3 != 'ok':
-        res['install'] = (False, sig + ':install-raised', 'install %s / get %s: %s %s' % (st2, st3, e, back if st3 != 'ok' else ''))
+        res['install'] = (False, sig + ':install:raised-%s-%s' % (st2, st3), 'install %s / get %s: %s %s' % (st2, st3, e, back if st3 != 'ok' else ''))
     else:
         d2 = cmp_struct(back, c['struct'])
-        res['install'] = (d2 is None, sig + ':install:' + (d2 or '').split(':')[0], 'install_%s -> get: %s' % (kind, d2))
+        res['install'] = (d2 is None, sig + ':install:' + sigcat(d2), 'install_%s -> get: %s' % (kind, d2))
     return res
 
 
@@ -339,7 +369,7 @@ def run_12(ctx, w, c, text, model, extra=None):
         res['install'] = (st2 != 'ok', 'C08:adf12:announced-block-absent-installed', 'install_adf12 accepted the truncated file')
         return res
     if st != 'ok':
-        res['oracle'] = (False, 'C08:adf12:parse-raised', 'parse_adf12 raised %s: %s' % (st, r))
+        res['oracle'] = (False, 'C08:adf12:parse:raised-' + st, 'parse_adf12 raised %s: %s' % (st, r))
         res['impl_vs_model'] = 'impl raised %s, model %s' % (st, model[:40])
         return res
     got = r[donor][receiver][charge]
@@ -358,7 +388,7 @@ def run_12(ctx, w, c, text, model, extra=None):
             if dd:
                 d = 'transition %r %s' % (tr, dd)
                 break
-    res['oracle'] = (d is None, 'C08:adf12:parse:' + (d or '').split(':')[0][:40], 'parse_adf12: %s' % d)
+    res['oracle'] = (d is None, 'C08:adf12:parse:' + sigcat(d), 'parse_adf12: %s' % d)
     if model.startswith('ok'):
         mb = split_model_blocks(model)
         md = {}
@@ -378,7 +408,7 @@ def run_12(ctx, w, c, text, model, extra=None):
         res['impl_vs_model'] = 'model says %s, implementation parsed the file' % model
     st2, e = quiet(I.install_adf12, donor, meta, receiver, charge, rel, repository_path=w.repo, adas_path=w.adas)
     if st2 != 'ok':
-        res['install'] = (False, 'C08:adf12:install-raised', 'install_adf12 raised %s: %s' % (st2, e))
+        res['install'] = (False, 'C08:adf12:install:raised-' + st2, 'install_adf12 raised %s: %s' % (st2, e))
         return res
     d2_ = None
     for tr in want:
@@ -397,7 +427,7 @@ def run_12(ctx, w, c, text, model, extra=None):
     st4, _ = call(R.get_beam_cx_rates, donor, receiver, charge, (41, 40), w.repo)
     if d2_ is None and st4 != 'RuntimeError':
         d2_ = 'get of an absent transition gave %s' % st4
-    res['install'] = (d2_ is None, 'C08:adf12:install:' + (d2_ or '')[:30], 'install_adf12 -> get_beam_cx_rates: %s' % d2_)
+    res['install'] = (d2_ is None, 'C08:adf12:install:' + sigcat(d2_), 'install_adf12 -> get_beam_cx_rates: %s' % d2_)
     return res
 
 
@@ -419,7 +449,7 @@ def f5(x):
     return '%.5f' % x
 
 
-def gen_11(ctx, rng, wrong=None, dup=False):
+def gen_11(ctx, rng, wrong=None, dup=False, fixed=None):
     from cherab.core.atomic import hydrogen, deuterium, helium, carbon, neon, argon, krypton, xenon, nitrogen
     cls = rng.choice(sorted(CLS11))
     element = rng.choice([hydrogen, helium, carbon, nitrogen, neon, argon, krypton, xenon])
@@ -435,6 +465,12 @@ def gen_11(ctx, rng, wrong=None, dup=False):
         te[0] = f5(tlo)
         te.sort(key=float)
     resolved = rng.random() < 0.3
+    if fixed:
+        nNe, nTe, t0 = fixed
+        nblocks = min(nblocks, 2)
+        resolved = False
+        ne = [f5(x) for x in increasing(rng, nNe, 7.0, 16.0)]
+        te = [f5(t0 + 0.25 * i) for i in range(nTe)]
     z1s = list(range(1, nblocks + 1))
     metaline = []
     if resolved:
@@ -457,6 +493,13 @@ def gen_11(ctx, rng, wrong=None, dup=False):
         nblocks = nblocks_keep
     elif wrong == 'number':
         hz = Z + 1                               # corrupt header: name right, nuclear charge wrong
+    return build_11(cls, element, req, hz, hname, ne, te, z1s, rates, metaline, altEnd, wrong, dup and resolved)
+
+
+def build_11(cls, element, req, hz, hname, ne, te, z1s, rates, metaline, altEnd, wrong=None, dup=False):
+    """case record + protocol line from explicit ADF11 tables (rates[b][i_ne][i_te])"""
+    nNe, nTe, nblocks = len(ne), len(te), len(z1s)
+    resolved = bool(metaline)
     flat = []
     for b in range(nblocks):
         for j in range(nTe):
@@ -465,12 +508,32 @@ def gen_11(ctx, rng, wrong=None, dup=False):
     line = ' '.join(['adf11', cls, str(req.atomic_number), req.name, str(hz), hname, '1', str(nblocks), str(nNe), str(nTe),
                      '1' if altEnd else '0', str(len(metaline))] + metaline + [str(nblocks)] + [str(z) for z in z1s] + ne + te + flat)
     probe_tok = ne[8] if nNe > 8 else te[0]
-    return dict(fmt='11', kind=cls + ('r' if resolved else 'u') + (':wrong-' + wrong if wrong else '') + (':dup' if dup and resolved else ''),
+    return dict(fmt='11', kind=cls + ('r' if resolved else 'u') + (':wrong-' + wrong if wrong else '') + (':dup' if dup else ''),
                 cls=cls, line=line, element=element, request=req, z1s=z1s, ne=ne, te=te, rates=rates, resolved=resolved, wrong=wrong,
                 dup=resolved and len(set(z1s)) != len(z1s), probe_negative=(not resolved) and probe_tok.startswith('-'),
-                sizes=(nNe, nTe, nblocks, resolved, altEnd),
+                sizes=(nNe, nTe, nblocks, resolved, altEnd), counts=(nNe, nTe),
                 desc=dict(format='adf11', cls=cls, element=element.symbol, requested=req.symbol, n_ne=nNe, n_te=nTe, z1=z1s,
                           resolved=resolved, alt_end=altEnd, fourth_line_first_token=probe_tok if not resolved else None))
+
+
+def corpus_cases():
+    """minimised past failures (corpus/C08/*.json), run first"""
+    from cherab.core import atomic
+    from harness.vlib.util import VERIF
+    d = os.path.join(VERIF, 'corpus', 'C08')
+    out = []
+    for fn in sorted(os.listdir(d)) if os.path.isdir(d) else []:
+        if not fn.endswith('.json'):
+            continue
+        j = json.load(open(os.path.join(d, fn)))
+        if j.get('format') == 'adf11':
+            el = getattr(atomic, j['element'])
+            c = build_11(j['cls'], el, el, el.atomic_number, el.name, j['ne'], j['te'], j['z1'], j['rates'], j.get('metaline', []),
+                         bool(j.get('alt_end')))
+            c['kind'] += ':corpus'
+            c['desc']['corpus'] = fn
+            out.append(c)
+    return out
 
 
 def run_11(ctx, w, c, text, model, extra=None):
@@ -491,13 +554,14 @@ def run_11(ctx, w, c, text, model, extra=None):
         res['install'] = (st2 == 'ValueError', 'C08:adf11:wrong-element-header-installed:' + c['wrong'],
                           '%s(%s) on a file headed %s gave %s' % (inst, req.symbol, c['desc']['element'], st2))
         return res
-    sig_root = SIG11_PROBE if c['probe_negative'] else 'C08:adf11'
+    sig_root = 'C08:adf11'
+    explained = False       # the failure is exactly what the resolved-file mis-detection predicts (two data lines skipped)
     # expected tables (a repeated Z1 of a metastable-resolved file: last block wins — not judged by the oracle)
     want = {}
     for z, tab in zip(c['z1s'], c['rates']):
         want[z] = {'ne': ('id', c['ne']), 'te': ('id', c['te']), 'rates': ('id', tab)}
     if st != 'ok':
-        res['oracle'] = (False, sig_root + ':parse-raised', 'parse_adf11 raised %s: %s' % (st, r))
+        res['oracle'] = (False, sig_root + ':parse:raised-%s' % st, 'parse_adf11 raised %s: %s' % (st, r))
         if model != 'err ' + st:
             res['impl_vs_model'] = 'impl raised %s, model %s' % (st, model[:40])
         return res
@@ -511,11 +575,16 @@ def run_11(ctx, w, c, text, model, extra=None):
             if dd:
                 d = 'Z1=%d %s' % (z, dd)
                 break
+    if c['probe_negative'] and d and set(got.keys()) == set(want.keys()):
+        chunks = lambda v: [v[i:i + 8] for i in range(0, len(v), 8)]
+        vec = [t for ln in (chunks(c['ne']) + chunks(c['te']))[2:] for t in ln]
+        n = len(c['ne'])
+        explained = all(cmp_struct(got[z], {'ne': ('id', vec[:n]), 'te': ('id', vec[n:]), 'rates': want[z]['rates']}) is None for z in want)
     if not c['dup']:
         why = 'parse_adf11: %s' % d
-        if c['probe_negative'] and d:
+        if explained:
             why += ' (unresolved file, 4th line starts with %s: taken for a resolved file, two data lines skipped)' % c['desc']['fourth_line_first_token']
-        res['oracle'] = (d is None, sig_root + (':parse' if d and not c['probe_negative'] else ''), why)
+        res['oracle'] = (d is None, SIG11_PROBE if explained else sig_root + ':parse:' + sigcat(d), why)
     if model.startswith('ok'):
         md = {}
         for key, body in split_model_blocks(model):
@@ -539,7 +608,7 @@ def run_11(ctx, w, c, text, model, extra=None):
     minst = extra[0] if extra else ''
     if st2 != 'ok':
         if not c['dup']:
-            res['install'] = (False, sig_root + ('' if c['probe_negative'] else ':install-raised'), '%s raised %s: %s' % (inst, st2, e))
+            res['install'] = (False, SIG11_PROBE if explained else sig_root + ':%s:install:raised-%s' % (cls, st2), '%s raised %s: %s' % (inst, st2, e))
         if minst.startswith('ok') and not c['probe_negative']:
             res['impl_vs_model'] = res.get('impl_vs_model') or 'install raised %s, model installs' % st2
         return res
@@ -569,7 +638,7 @@ def run_11(ctx, w, c, text, model, extra=None):
             if st5 != 'RuntimeError':
                 d2_ = 'Z1=%d of a %s file is readable under the unshifted charge' % (max(want), cls)
     if not c['dup']:
-        res['install'] = (d2_ is None, sig_root + (':install' if not c['probe_negative'] else ''), '%s -> %s: %s' % (inst, getter, d2_))
+        res['install'] = (d2_ is None, SIG11_PROBE if explained else sig_root + ':%s:install:%s' % (cls, sigcat(d2_)), '%s -> %s: %s' % (inst, getter, d2_))
     # the model's notation step against what the repository returns
     if minst.startswith('ok'):
         for key, body in split_model_blocks(minst):
@@ -694,6 +763,7 @@ def gen_15(ctx, rng, absent=False):
         want['wavelength'][tr] = {'wl': ('ang', b['wl_idx'])}
     return dict(fmt='15', kind=mode + (':absent' if absent else ''), line=line, element=element, charge=charge, hf=hf, fname=fname, want=want,
                 absent=absent, sizes=(nblocks, tuple((len(b['ne']), len(b['te'])) for b in blocks[:3]), mode),
+                counts=tuple(n_ for b in blocks for n_ in (len(b['ne']), len(b['te']))),
                 desc=dict(format='adf15', mode=mode, element=element.symbol, charge=charge, header_format=hf, file_name=fname,
                           blocks=[(b['isel'], b['typ'], len(b['ne']), len(b['te'])) for b in blocks], dropped_block=(drop + 1) if absent else None))
 
@@ -715,7 +785,7 @@ def run_15(ctx, w, c, text, model, extra=None):
         res['install'] = (st2 == 'RuntimeError', 'C08:adf15:absent-block-installed', 'install_adf15 gave %s' % st2)
         return res
     if st != 'ok':
-        res['oracle'] = (False, 'C08:adf15:parse-raised:' + c['kind'], 'parse_adf15 raised %s: %s' % (st, r))
+        res['oracle'] = (False, 'C08:adf15:%s:parse:raised-%s' % (c['kind'], st), 'parse_adf15 raised %s: %s' % (st, r))
         if model != 'err ' + st:
             res['impl_vs_model'] = 'impl raised %s, model %s' % (st, model[:40])
         return res
@@ -749,7 +819,7 @@ def run_15(ctx, w, c, text, model, extra=None):
                     return '%s %r %s' % (cls, tr, dd)
         return None
     d = diff(got, want)
-    res['oracle'] = (d is None, 'C08:adf15:parse:' + c['kind'].split(':')[0], 'parse_adf15 (%s): %s' % (c['kind'], d))
+    res['oracle'] = (d is None, 'C08:adf15:%s:parse:%s:%s' % (c['kind'].split(':')[0], (d or '').split(' ')[0], sigcat(d)), 'parse_adf15 (%s): %s' % (c['kind'], d))
     if model.startswith('ok'):
         md = {'excitation': {}, 'recombination': {}, 'thermalcx': {}, 'wavelength': {}}
         for key, body in split_model_blocks(model):
@@ -763,7 +833,7 @@ def run_15(ctx, w, c, text, model, extra=None):
     # ---- install + read back
     st2, e = quiet(I.install_adf15, el, ch, rel, repository_path=w.repo, adas_path=w.adas, header_format=hf)
     if st2 != 'ok':
-        res['install'] = (False, 'C08:adf15:install-raised', 'install_adf15 raised %s: %s' % (st2, e))
+        res['install'] = (False, 'C08:adf15:install:raised-' + st2, 'install_adf15 raised %s: %s' % (st2, e))
         return res
     d2_ = None
     for cls, getter in (('excitation', R.get_pec_excitation_rate), ('recombination', R.get_pec_recombination_rate)):
@@ -810,7 +880,7 @@ def run_15(ctx, w, c, text, model, extra=None):
         st4, _ = call(R.get_pec_excitation_rate, el, ch, (98, 97), w.repo)
         if st4 != 'RuntimeError':
             d2_ = 'get of an absent transition gave %s' % st4
-    res['install'] = (d2_ is None, 'C08:adf15:install:' + (d2_ or '').split(' ')[0], 'install_adf15 -> get_*: %s' % d2_)
+    res['install'] = (d2_ is None, 'C08:adf15:install:%s:%s' % ((d2_ or '').split(' ')[0], sigcat(d2_)), 'install_adf15 -> get_*: %s' % d2_)
     shutil.rmtree(os.path.join(DEFAULT_REPOSITORY_PATH, 'pec'), ignore_errors=True)
     return res
 
@@ -849,9 +919,38 @@ def run(ctx):
         shutil.rmtree(_HOME, ignore_errors=True)
 
 
+def check_tags(ctx):
+    """the model's conversion / charge tables against the tables this module uses for its own oracle"""
+    out = ctx.driver(['tags'])[0]
+    mine = {'adf21': TAGS2X['adf21'], 'bmp': TAGS2X['bmp'], 'bme': TAGS2X['bme'], 'adf12': TAGS12, 'adf11parsed': TAGS11P,
+            'adf11installed': TAGS11I, 'adf15': TAGS15, 'charge': {k: str(v[2]) for k, v in CLS11.items()}}
+    for part in out.split('|'):
+        name, *kv = part.split(' ')
+        model = dict(x.split('=') for x in kv)
+        ref = {k: v for k, v in mine[name].items() if not k.startswith('_')}
+        ctx.case(key=('tags', name))
+        if model != ref:
+            ctx.disagreements += 1
+            ctx.broke('correspondence', 'C08 conversion tags ' + name, dict(model=model, harness=ref))
+
+
+def edge_11(ctx, rng):
+    """systematic small ADF11 files around the 8-per-line boundary, first temperature below / at / above 1 eV"""
+    sizes = [1, 7, 8, 9, 16, 17] if ctx.tier == 'quick' else list(range(1, 19))
+    out = []
+    for nNe in sizes:
+        for nTe in sizes:
+            for t0 in (-0.69897, 0.0):
+                if ctx.tier == 'quick' and (nNe * 7 + nTe * 3 + (t0 < 0)) % 3:
+                    continue
+                out.append(gen_11(ctx, rng, fixed=(nNe, nTe, t0)))
+    return out
+
+
 def _streams(ctx, w):
     rng = ctx.rng
-    cases = []
+    check_tags(ctx)
+    cases = corpus_cases()
     for _ in range(ctx.n(60, 900)):
         cases.append(gen_2x(ctx, rng))
     for i in range(ctx.n(60, 900)):
@@ -859,11 +958,16 @@ def _streams(ctx, w):
     for i in range(ctx.n(120, 1800)):
         wrong = [None] * 7 + ['element', 'isotope', 'number']
         cases.append(gen_11(ctx, rng, wrong=wrong[i % 10], dup=(i % 10 == 3)))
+    edge = edge_11(ctx, rng)
+    for c in edge:
+        c['kind'] += ':edge'
+    cases += edge
     for i in range(ctx.n(120, 1800)):
         cases.append(gen_15(ctx, rng, absent=(i % 10 == 9)))
     w.fresh_repo()
     outs = ctx.driver([c['line'] for c in cases])
     ctx.traces = 0
+    seen_fmt = set()
     for c, o in zip(cases, outs):
         parts = o.split('#')
         if len(parts) < 3:
@@ -876,8 +980,11 @@ def _streams(ctx, w):
         res = runner(ctx, w, c, text, model, parts[3:])
         key = (c['fmt'], c.get('kind'), c['sizes'])
         ctx.count('%s:%s' % (c['fmt'], c.get('kind')))
+        for n_ in c.get('counts', ()):
+            ctx.count('values-mod8=%d' % (n_ % 8))
         ctx.case(key=key if res.get('parse_status') == 'ok' else None,
-                 sample=dict(case=c['desc'], file_head=text.split('\n')[:6]) if rng.random() < 0.02 else None)
+                 sample=dict(case=c['desc'], file_head=text.split('\n')[:6]) if (c['fmt'] not in seen_fmt or rng.random() < 0.01) else None)
+        seen_fmt.add(c['fmt'])
         ctx.traces += 1
         if agree != '1':
             ctx.disagreements += 1
